@@ -7,6 +7,9 @@ applied and the *analyser* re-run on the copy (norminette itself is never run):
   m_*.diff  mutant  -- breaks one rule instance, still compiles: the check must exit 1
   t_*.diff  twin    -- behaviour-preserving rewrite of the same construct: the check must exit 0
 
+/verif/battery/ALL/t_*.diff are behaviour-preserving refactorings written by independent authors (extract / inline
+function, control-flow rewrites, moved helpers, changed loop forms ...); every check runs on each of them.
+
 A patch that does not apply to the current tree (the tree was edited) is
 skipped and listed.  A wrong outcome is an ANALYSIS-ERROR (the checker is
 broken), never a VIOLATION of the repository.
@@ -48,6 +51,8 @@ def _one(args):
 
 def run_for(run, prop: str):
     patches = sorted(glob.glob(os.path.join(VERIF, "battery", prop, "*.diff")))
+    # behaviour-preserving refactorings of the whole code base (independent authors): every check must stay silent
+    patches += sorted(glob.glob(os.path.join(VERIF, "battery", "ALL", "t_*.diff")))
     if not patches:
         run.note("thorough: no battery patches for this property")
         return
